@@ -46,6 +46,10 @@
 // and non-lattice starts, and as a meta sub-optimiser it runs in full mode (Nelder-Mead stops on equal vertex values /
 // a fresh simplex of size 0.2 is built by every init()).
 //
+// Cost bound: Powell (alone or inside the meta-optimiser) on an objective whose minimum value is exactly 0 gets a cap of
+// 50000 where the default (10^6) would have been used: its relative stop rule cannot be met there and the run lasts
+// until the cap (reason and numbers at the end of genCase).
+//
 // Convergence constants K_opt (frozen): calibrated on the unchanged tree (known findings excluded) and on a copy with all
 // proposed fixes (no exclusion), >= 10x above the worst ratio err/scale seen (evidence: "conv_ratio_<optimiser>"):
 //   worst seen   bfgs 0.77  cg 6.3  powell 3.7  simplex 6.5 (fixed copy)  simple 0.38  simple-newton 0.39
@@ -226,7 +230,7 @@ struct Case {
   double tol = 1e-6; unsigned cap = 0;  // 0 = the optimiser's default
   double xinf = 0, xsup = 1;            // initial interval (Brent, golden section)
   vector<double> dir; double dirScale = 1; int dirMode = 0;  // line search
-  vector<SubOpt> subs; unsigned metaN = 1;                   // meta
+  vector<SubOpt> subs; unsigned metaN = 1; unsigned subCap = 0;  // meta (subCap: evaluation cap set on every sub-optimiser, 0 = their defaults)
   bool activeSide = false;
   int ivMode = 0;                        // Brent: where the initial interval lies (see genCase)
   // how the optimiser that is run was obtained: 0 built and configured directly, 1 copy-constructed from a configured
@@ -375,6 +379,14 @@ Case genCase(vf::Ctx& c, const Filter& f, const vector<int>& opts) {
     if (k.origin == 3) k.decoy = c.flag();
     if (getenv("C10_KEEP_PROTO")) k.protoDrop = false;
   }
+  // Cost bound. Powell's stop rule is relative to |f| (2|fp-fret| <= tau(|fp|+|fret|), Numerical Recipes): when the minimum
+  // value is exactly 0 it is only met once two successive values are bitwise equal, and a run with the default cap
+  // legitimately lasts until that cap: 10^6 iterations, 2*10^6 objective evaluations, 30 CPU-seconds under the sanitizers
+  // (more than the 60 s watchdog on a heavily loaded machine). The same run with a cap of 50000 (also on the
+  // sub-optimisers of a meta-optimiser, whose full runs have caps of their own) shows the same behaviour at 1/20 of the
+  // cost; Powell is within 1e-8 of the minimiser after a few hundred evaluations.
+  bool powell = k.opt == POWELL; for (auto& s : k.subs) powell = powell || s.kind == POWELL;
+  if (powell && k.spec.d == 0 && k.cap == 0) { k.cap = 50000; if (k.opt == META) k.subCap = 50000; }
   return k;
 }
 
@@ -388,7 +400,7 @@ string showCase(const Case& k) {
   if (k.opt == BRENT_OUT || k.opt == BRENT_IN) o << (k.ivMode == 0 ? " (around start and minimiser)" : k.ivMode == 1 ? " (around the start)" : k.ivMode == 2 ? " (right of the start)" : " (left of the start)");
   if (k.opt == LINESEARCH) o << " direction=" << (k.dirMode ? "newton" : "-gradient") << "*" << k.dirScale;
   if (k.opt == META) {
-    o << " meta(n=" << k.metaN << ")";
+    o << " meta(n=" << k.metaN << (k.subCap ? ", sub-optimiser caps " + to_string(k.subCap) : string()) << ")";
     for (auto& s : k.subs) { o << " [" << ONAME[s.kind] << "," << (s.full ? "full" : "step") << ":"; for (int v : s.vars) o << " x" << v; o << "]"; }
   }
   if (k.origin) {
@@ -555,6 +567,7 @@ Out runCase1(vf::Ctx& c, const Case& k) {
         vector<string> names; for (int v : s.vars) names.push_back(nm(v));
         unsigned short der = (s.kind == SNEWTON || s.kind == NEWTON1D) ? 2 : (s.kind == BFGS || s.kind == CG) ? 1 : 0;
         auto so = makeOpt(s.kind, o.obj);
+        if (k.subCap) so->setMaximumNumberOfEvaluations(k.subCap);
         desc->addOptimizer(ONAME[s.kind], so, names, der, s.full ? MetaOptimizerInfos::IT_TYPE_FULL : MetaOptimizerInfos::IT_TYPE_STEP);
       }
       opt = make_shared<MetaOptimizer>(o.obj, std::move(desc), k.metaN);
@@ -776,10 +789,11 @@ LAW(Le_convergence, RC, 1500, 50000, 160, "dim >= 2 or start within 1e-6 of the 
   // (25000 evaluations per round): cut after 41 rounds exactly where exact block descent stands after 41 rounds
   // (error 0.703; the rule |df| < 1e-10 is met at round 127). The other optimisers keep the unconditional claim.
   {
-    unsigned cap = defaultCap(k.opt);
+    unsigned cap = k.cap ? k.cap : defaultCap(k.opt);
     bool fsc = k.opt == BFGS || k.opt == CG || k.opt == SIMPLE || k.opt == SNEWTON || k.opt == NEWTON1D || k.opt == META;
     size_t ns = o.stepValue.size();
-    if (fsc && !o.tolReached && o.maxReached && o.nEval >= cap && ns >= 2 && std::abs(o.stepValue[ns - 1] - o.stepValue[ns - 2]) >= k.tol) {
+    double before = ns >= 2 ? o.stepValue[ns - 2] : o.fStart;  // the stop condition starts from the value at init()
+    if (fsc && !o.tolReached && o.maxReached && o.nEval >= cap && ns >= 1 && std::abs(o.stepValue[ns - 1] - before) >= k.tol) {
       c.label("budget_cut_before_stop_rule");
       return;
     }
